@@ -132,6 +132,15 @@ CLAIMED["C11"] = dict(cat="proof", tech="Coq proof (recovered counter above ever
         "seqno of every tree (hook) and of every journal file (framing parser). The scan clause is decided differentially.",
    note=PROOF_NOTE, ref="6 C11")
 
+CLAIMED["C06"] = dict(cat="proof", tech="Coq proof over an interleaving model of the commit protocol (all schedules), refutation witness for the known finding, pause-point schedules on the implementation",
+   text="Coq theorems (props/C06.v, closed): C06_snapshot_atomic — in Conc.v (acquire journal mutex, draw seqno, apply item by item, publish, release; readers "
+        "snapshot at any point) for EVERY interleaving, any number of batches of any size, a snapshot sees of each batch all items or none, provided no step advances "
+        "the visible seqno outside the mutex; C06_bump_refuted — with lsm-tree's version-upgrade bump the statement fails on a 5-event trace (known finding E4). "
+        "On the implementation the same traces are forced through pause points (reader / second writer / flush / major compaction inside the commit window, lock "
+        "hand-over race) plus free-running stress; schedules with a tree version upgrade in the window reproduce E4 and are reported as KNOWN-FINDING, everything "
+        "else must show none-or-all.",
+   note="Conc.v bakes in mutual exclusion of the journal Mutex and sequential consistency at micro-step granularity; the implementation side explores enumerated and sampled schedules only", ref="6 C06")
+
 m = {"version": 1, "setup_cmd": "./setup.sh",
      "hooks": {"guard": "cargo feature fjall_verif",
                "enable": "harness/Cargo.toml depends on fjall = { path = \"/repo\", features = [\"fjall_verif\"] }",
